@@ -41,13 +41,27 @@ class FS:
             raise exc
 
 
+def _overlay(old, pos, data):
+    """Write `data` at offset `pos` over `old` (text files: offsets in characters)."""
+    if old is None:
+        old = ""
+    if pos > len(old):
+        old = old + "\x00" * (pos - len(old))
+    return old[:pos] + data + old[pos + len(data):]
+
+
 class _File:
     def __init__(self, fs, path, mode):
         self.fs = fs
         self.path = path
         self.mode = mode
-        self.buf = None  # pending (unflushed) data
+        self.buf = None  # pending (unflushed) data, to be written at self.bufpos
+        self.bufpos = 0
+        self.pos = 0
         self.closed = False
+
+    def writable(self):
+        return "w" in self.mode or "+" in self.mode or "a" in self.mode
 
     async def _y(self):
         if self.fs.yielder is not None:
@@ -58,17 +72,39 @@ class _File:
         self.fs.tick("read:" + self.path)
         data = self.fs.files[self.path]
         if isinstance(data, bytes):
-            return data.decode()  # text mode: UnicodeDecodeError is a ValueError
+            data = data.decode()  # text mode: UnicodeDecodeError is a ValueError
+        if hasattr(data, "__len__"):
+            out = data[self.pos:] if self.pos else data
+            self.pos = len(data)
+            return out
         return data
 
     async def write(self, data):
         await self._y()
-        try:
-            self.fs.tick("write:" + self.path)
-        except Crashed:
-            raise
-        self.buf = data if self.buf is None else self.buf + data
+        self.fs.tick("write:" + self.path)
+        if self.buf is None:
+            self.buf = data
+            self.bufpos = self.pos
+        else:
+            self.buf = self.buf + data
+        self.pos += len(data) if hasattr(data, "__len__") else 0
         return len(data) if hasattr(data, "__len__") else 0
+
+    async def seek(self, offset, whence=0):
+        await self._y()
+        self.fs.tick("seek:" + self.path)
+        self._flush()
+        self.pos = offset if whence == 0 else self.pos
+        return self.pos
+
+    async def truncate(self, size=None):
+        await self._y()
+        self.fs.tick("truncate:" + self.path)
+        self._flush()
+        n = self.pos if size is None else size
+        cur = self.fs.files.get(self.path, "")
+        self.fs.files[self.path] = cur[:n]
+        return n
 
     async def flush(self):
         await self._y()
@@ -78,8 +114,23 @@ class _File:
     def _flush(self):
         if self.buf is not None:
             old = self.fs.files.get(self.path, "")
-            self.fs.files[self.path] = self.buf if old == "" or old is None else old + self.buf
+            if isinstance(self.buf, str) and isinstance(old, str):
+                self.fs.files[self.path] = _overlay(old, self.bufpos, self.buf)
+            else:
+                self.fs.files[self.path] = self.buf  # token (symbolic json fake): whole-file write
             self.buf = None
+
+    def crash_cut(self):
+        """The process died with unflushed data: a symbolic prefix of it reached the disk."""
+        fs = self.fs
+        if self.buf is not None and fs.prefix_len is not None and self.writable() and not getattr(fs, "_cut_done", False):
+            fs._cut_done = True
+            n = fs.prefix_len(len(self.buf))
+            old = fs.files.get(self.path, "")
+            if isinstance(self.buf, str) and isinstance(old, str):
+                fs.files[self.path] = _overlay(old, self.bufpos, self.buf[:n])
+            else:
+                fs.files[self.path] = self.buf[:n]
 
     async def close(self):
         await self._y()
@@ -88,11 +139,7 @@ class _File:
         try:
             self.fs.tick("close:" + self.path)
         except Crashed:
-            # process died with unflushed data: a prefix of it may have reached the disk
-            if self.buf is not None and self.fs.prefix_len is not None and "w" in self.mode and not getattr(self.fs, "_cut_done", False):
-                self.fs._cut_done = True
-                n = self.fs.prefix_len(len(self.buf))
-                self.fs.files[self.path] = self.buf[:n]
+            self.crash_cut()
             raise
         self._flush()
         self.closed = True
@@ -112,9 +159,17 @@ class _Ctx:
         fs.tick("open-%s:%s" % (self.mode, self.path))
         if "w" in self.mode:
             fs.files[self.path] = ""
+        elif "x" in self.mode:
+            if self.path in fs.files:
+                raise FileExistsError(17, "File exists", self.path)
+            fs.files[self.path] = ""
+        elif "a" in self.mode:
+            fs.files.setdefault(self.path, "")
         elif self.path not in fs.files:
             raise FileNotFoundError(2, "No such file or directory", self.path)
         self.f = _File(fs, self.path, self.mode)
+        if "a" in self.mode:
+            self.f.pos = len(fs.files[self.path])
         return self.f
 
     def __await__(self):
@@ -128,11 +183,7 @@ class _Ctx:
             if et is not None and issubclass(et, Crashed):
                 # the process is dead: the with-block's close never runs as code, but the OS
                 # may have received a prefix of the buffered data
-                f = self.f
-                if f.buf is not None and self.fs.prefix_len is not None and "w" in f.mode and not getattr(self.fs, "_cut_done", False):
-                    self.fs._cut_done = True
-                    n = self.fs.prefix_len(len(f.buf))
-                    self.fs.files[f.path] = f.buf[:n]
+                self.f.crash_cut()
                 return False
             await self.f.close()
         return False
@@ -167,13 +218,39 @@ class FakeAiofiles:
         return _Ctx(self.fs, str(path), mode)
 
 
+class _FakePath:
+    def __init__(self, fs, real_path):
+        self._fs = fs
+        self._real = real_path
+
+    def exists(self, p):
+        return str(p) in self._fs.files
+
+    isfile = exists
+    lexists = exists
+
+    def getsize(self, p):
+        return len(self._fs.files[str(p)])
+
+    def __getattr__(self, name):
+        return getattr(self._real, name)
+
+
 class SyncOs:
-    """Stand-in for the `os` module inside persistence (if a future save uses os.replace)."""
+    """Stand-in for the `os` module inside persistence (if save uses os.replace, os.path.exists ...)."""
 
     def __init__(self, fs, real_os):
         self._fs = fs
         self._real = real_os
-        self.path = real_os.path
+        self.path = _FakePath(fs, real_os.path)
+
+    def remove(self, p):
+        self._fs.tick("remove:" + str(p))
+        if str(p) not in self._fs.files:
+            raise FileNotFoundError(2, "No such file or directory", str(p))
+        del self._fs.files[str(p)]
+
+    unlink = remove
 
     def replace(self, src, dst):
         _FakeOs(self._fs)._replace(str(src), str(dst))
